@@ -445,7 +445,7 @@ func TestVerif_C41(t *testing.T) {
 	w := c41NewWorld(t)
 	defer w.close()
 	rng := r.Rand(1)
-	n := r.N(1000, 40000)
+	n := r.N(1000, 100000)
 	for i := 0; i < n; i++ {
 		spec := c41Spec{Typ: c41Types[rng.Intn(len(c41Types))], N: 2 + rng.Intn(2), Steps: 10 + rng.Intn(31), TTL: 1000 * time.Hour}
 		if rng.Intn(25) == 0 {
